@@ -32,7 +32,7 @@ ENV = {'XLA_FLAGS': '--xla_force_host_platform_device_count=8'}
 MIN_HITS = {
     'quick': {'mon:fold': 400, 'mon:ids': 200, 'mon:steps': 200, 'mon:sanitize': 200, 'backend:jit': 40, 'backend:debug': 40,
               'backend:pmap': 100, 'pmap-padding-client': 30, 'pmap-padding-batch': 30, 'nan-on-padding-program': 20,
-              'mon:thread': 5000, 'thread-alternations': 50, 'zero-batches-client': 20, 'mon:restore': 500, 'client-id-None': 5, 'reuse:jit': 30, 'reuse:pmap': 30, 'hit:many-clients-call': 12, 'hit:x64-scoped-call': 40},
+              'mon:thread': 5000, 'thread-alternations': 50, 'zero-batches-client': 20, 'mon:restore': 500, 'client-id-None': 5, 'reuse:jit': 30, 'reuse:pmap': 30, 'hit:many-clients-call': 12, 'hit:x64-scoped-call': 40, 'thread-decorated-calls': 500},
     'thorough': {'mon:fold': 8000, 'mon:ids': 4000, 'mon:steps': 4000, 'mon:sanitize': 4000, 'backend:jit': 400,
                  'backend:debug': 400, 'backend:pmap': 3000, 'pmap-padding-client': 800, 'pmap-padding-batch': 800,
                  'nan-on-padding-program': 200, 'mon:thread': 100000, 'thread-alternations': 500, 'zero-batches-client': 300,
@@ -359,6 +359,17 @@ def run_schedule(ctx, fedjax, fec, rng, n_threads, n_ops):
         problems.append((where, tid, repr(exp), repr(got)))
     return ok
 
+  # functions DECORATED with a backend context, created once and shared by all threads: each call is its own activation of the
+  # context (they nest, re-enter themselves through other contexts and run concurrently in several threads)
+  shared_backends = ['debug', 'jit', Probe('shared')]
+
+  def _body(tid, shadow, b, inner):
+    shadow[0] = b
+    observe(tid, shadow, 'decorated-enter')
+    inner()
+
+  decorated = [(b, fedjax.for_each_client_backend(b)(_body)) for b in shared_backends]
+
   def worker(tid, seed):
     r = np.random.RandomState(seed)
     shadow = [None]  # what this thread should observe; None = never set in this thread -> default
@@ -396,17 +407,27 @@ def run_schedule(ctx, fedjax, fec, rng, n_threads, n_ops):
           with log_lock:
             counters['restores'] += 1
           observe(tid, shadow, 'ctx-exit-exception' if raised else 'ctx-exit')
+        elif op == 5 and depth < 5:
+          b, fn = decorated[r.randint(len(decorated))]
+          saved = shadow[0]
+          fn(tid, shadow, b, lambda: prog(depth + 1, budget))
+          shadow[0] = saved
+          with log_lock:
+            counters['restores'] += 1
+            counters['decorated'] = counters.get('decorated', 0) + 1
+          observe(tid, shadow, 'decorated-exit')
         elif op == 3 and depth > 0 and r.rand() < 0.3:
           return
         elif op == 4 and isinstance(shadow[0], Probe):
-          before = len(shadow[0].calls)
+          me = threading.get_ident()
+          before = shadow[0].calls.count(me)       # (a probe shared through a decorated function is used by several threads)
           fedjax.for_each_client(lambda s, c: s, lambda s, b: s)
           calls = shadow[0].calls
-          ok = len(calls) == before + 1 and calls[-1] == threading.get_ident()
+          ok = calls.count(me) == before + 1
           with log_lock:
             counters['builds'] += 1
             if not ok and len(problems) < 5:
-              problems.append(('for_each_client-used-other-backend', tid, shadow[0].tag, len(calls) - before))
+              problems.append(('for_each_client-used-other-backend', tid, shadow[0].tag, calls.count(me) - before))
         else:
           observe(tid, shadow, 'read')
         with log_lock:
@@ -431,6 +452,7 @@ def run_schedule(ctx, fedjax, fec, rng, n_threads, n_ops):
   ctx.count('thread-alternations', alternations)
   ctx.count('thread-ops', counters['ops'])
   ctx.count('thread-builds', counters['builds'])
+  ctx.count('thread-decorated-calls', counters.get('decorated', 0))
   wit = {'threads': n_threads, 'ops_per_thread': n_ops, 'reads': counters['reads'], 'alternations': alternations,
          'problems': problems}
   for where, *_ in problems:
